@@ -45,6 +45,7 @@ Proof.
   - unfold p_addlost in H. destruct (p_live s t); [|discriminate]. destruct (curr s t); [discriminate|]. injection H as <-. repeat split.
   - unfold p_finish in H. destruct (p_live s t); [|discriminate]. injection H as <-.
     destruct (curr s t); [destruct (f_rec _)|]; repeat split.
+  - unfold p_exec in H. destruct (p_live s t); [|discriminate]. destruct (curr s t); [|discriminate]. injection H as <-. repeat split.
 Qed.
 
 (* record_mmap_file: a buffer put on buf_write_list comes with a kick while the pipe is open *)
@@ -71,7 +72,11 @@ Proof.
   2:{ destruct (ksame_prod c s l s' Hl H) as (A & B & C). unfold KInv. rewrite A, B, C. exact K. }
   unfold KInv in *. destruct l; try discriminate; cbn [step] in H.
   - (* M_msg *) unfold m_msg in H. destruct (stopped s) eqn:Es; [discriminate|]. specialize (K eq_refl).
-    destruct (chan s) as [|[b|b|n] r]; try discriminate; injection H as <-; sp; try (intros _; exact K).
+    destruct (chan s) as [|[b|b|n|b0] r]; try discriminate.
+    4:{ destruct (first_tid (fst b0) (shl s)) as [b|]; injection H as <-; sp; [|intros _; exact K].
+        set (s1 := set_shl _ _). destruct (record_mmap_k s1 b) as (A & [[B C]|[B C]]); intros _; rewrite B, C; unfold s1; sp; [exact K|].
+        rewrite Es, app_length. cbn. lia. }
+    all: injection H as <-; sp; try (intros _; exact K).
     set (s1 := set_shl _ _). destruct (record_mmap_k s1 b) as (A & [[B C]|[B C]]); intros _; rewrite B, C; unfold s1; sp; [exact K|].
     rewrite Es, app_length. cbn. lia.
   - (* W_pick *) apply w_pick_spec in H. destruct H as (s0 & Ek & _ & wr & _ & _ & H).
